@@ -110,7 +110,7 @@ def main():
                 "engine": "featmatrix" if pid == "C20" else "nxverif",
                 "level_claimed": {"category": "exploration", "text": text, "design_ref": ref},
                 "level_note": note,
-                "technique": tech + ("" if pid == "C20" else "; the same workload re-run (reduced) on the harness built in the release profile, with every optional model feature on" + (", and with nexrad-decode's default features off" if pid in ("C02","C03","C04","C07","C08","C09","C10","C11","C12","C13","C14") else "") + ", and with the wall clock moved past 2038 (LD_PRELOAD shim)" + "; second runs of cases after other cases on the same thread, failing calls ahead of cases, seed-dependent TZ / logger / environment variables; guard allocator in the main run (red zones around every heap block, junk-filled fresh and freed memory) and an AddressSanitizer lane in thorough" + ("; calls that were given up (dropped futures) ahead of cases, companion calls in flight on the same runtime, twin calls on one key" if pid in ("C15","C17","C18") else ("" if pid in ("C04","C06") else "; three shadow runs of the whole workload beside the main run in the same process (shared-state races)"))),
+                "technique": tech + ("" if pid == "C20" else "; the same workload re-run (reduced) on the harness built in the release profile, with every optional model feature on" + (", and with nexrad-decode's default features off" if pid in ("C02","C03","C04","C07","C08","C09","C10","C11","C12","C13","C14") else "") + ", and with the wall clock moved past 2038 (LD_PRELOAD shim)" + "; second runs of cases after other cases on the same thread, failing calls ahead of cases, seed-dependent TZ / logger / environment variables; guard allocator in the main run (red zones around every heap block, junk-filled fresh and freed memory) and an AddressSanitizer lane in thorough" + ("" if pid in ("C15","C17","C18") else ", ThreadSanitizer lane (-Zbuild-std) in thorough") + ("; calls that were given up (dropped futures) ahead of cases, companion calls in flight on the same runtime, twin calls on one key" if pid in ("C15","C17","C18") else ("" if pid in ("C04","C06") else "; three shadow runs of the whole workload beside the main run in the same process (shared-state races)"))),
             })
         else:
             na.append({"property_id": pid, "reason": BUILDING})
